@@ -30,6 +30,9 @@ PartM(D, p) ==
       [] p.k = "rotation"    -> RotationM(D, p.order, p.cs)
       [] p.k = "quaternion"  -> QuaternionM(p.q)
       [] p.k = "homogeneous" -> HomogeneousM(p.A, p.t)
+      \* a dense displacement field whose displacement is the affine function (A - I) x + t of the cube position:
+      \* linear interpolation reproduces it exactly, so inside the domain the transform IS the affine map A x + t
+      [] p.k = "ddf"         -> HomogeneousM(p.A, p.t)
 RECURSIVE SeqM(_, _)
 SeqM(D, parts) == IF parts = <<>> THEN AffId(D)
                   ELSE AffComp(SeqM(D, Tail(parts)), PartM(D, Head(parts)))
@@ -71,6 +74,8 @@ Emit == (EmitCases /\ st = 1) =>
     LET M == SeqM(Dc, ca.parts) IN
     PrintT(ToJson([name |-> ca.name, parts |-> ca.parts, g |-> ca.g, g2 |-> ca.g2,
                    M |-> AffHom(M), Minv |-> AffHom(InvM(Dc, ca.parts)),
+                   \* maps after the first k members (k = 1..n): needed to know where intermediate points lie
+                   partial |-> E([k \in 1..Len(ca.parts) |-> AffHom(SeqM(Dc, SubSeq(ca.parts, 1, k)))]),
                    W |-> AffHom(World(ca.g, M)),
                    \* the map in the cube coordinates of the other grid, and from (g2, world) to (g2, grid)
                    M2 |-> AffHom(Expressed(ca.g, M, ca.g2, CubeOf(ca.g2), ca.g2, CubeOf(ca.g2))),
